@@ -526,7 +526,7 @@ func main() {
 	workRoot = filepath.Join(vx.Root(), ".work", "c01", fmt.Sprintf("run-%d", os.Getpid()))
 	os.MkdirAll(workRoot, 0o755)
 	r.DistinctSet = "outcomes"
-	r.Rule = "BFS over all histories of write batches (non-empty values v1/v2 over a colliding key alphabet with the empty key, binary keys and shared prefixes; batch sizes 1..3) chained root to root on the real mavl Store; a state = (list of committed roots, raw database content). After every batch and for every root committed so far: Store.Get of every alphabet key, both unbounded scans, Tree.Size, AVL invariants, and for the newest root Store.IterateRangeByStateHash for every start,end in alphabet+nil in both directions; all repeated after a restart (memdb: new Store object + caches dropped; goleveldb: close and reopen). Plus the deterministic large-batch family (N keys x 4 insertion orders x batch sizes {2N keys at once, 16, 1}, then overwritten in another order). distinct = rebalancing cases (LL/LR/RR/RL/none/overwrite depth), batch sizes, old-root-differs classes, large-tree heights observed"
+	r.Rule = "(c) working tree: BFS over all histories of {Set(k,v), Hash(), Proof(a), Get(b), Save} on one real mavl Tree (3-4 keys x 2 values, depth 5/6, plain / prefix / memTree+memVal; the operations of the unsaved batch are part of the state because queries memoise data in the tree): after every Save every saved root is loaded afresh and read, Save's root == Hash() just before it. (a) BFS over all histories of write batches (non-empty values v1/v2 over a colliding key alphabet with the empty key, binary keys and shared prefixes; batch sizes 1..3) chained root to root on the real mavl Store; a state = (list of committed roots, raw database content). After every batch and for every root committed so far: Store.Get of every alphabet key, both unbounded scans, Tree.Size, AVL invariants, and for the newest root Store.IterateRangeByStateHash for every start,end in alphabet+nil in both directions; all repeated after a restart (memdb: new Store object + caches dropped; goleveldb: close and reopen). Plus the deterministic large-batch family (N keys x 4 insertion orders x batch sizes {2N keys at once, 16, 1}, then overwritten in another order). distinct = rebalancing cases (LL/LR/RR/RL/none/overwrite depth), batch sizes, old-root-differs classes, large-tree heights observed"
 	r.Assume = []string{"values are non-empty (an empty value and 'nothing' are both nil through Store.Get)", "histories contain writes only (the store API has no delete)", "sha256 collisions do not occur", "large family: older roots are re-read in full at checkpoints (every root by point reads while <=40 roots, every 64th batch beyond), not after every single batch"}
 
 	k5 := []string{"", "a", "ab", "a\xff", "b"}
@@ -587,6 +587,11 @@ func main() {
 					f = h.seq(r, 1).ReplayHist(c.Hist)
 				}
 			}
+			for _, cf := range []mvx.Cfg{cfgPlain, cfgPrefix, {Name: "memTree+memVal", MemTree: true, MemVal: true}} {
+				if "worktree-"+cf.Name == c.Harness {
+					f = wtHarness(r, cf, 6).ReplayHist(c.Hist)
+				}
+			}
 		}
 		if f != "" {
 			fmt.Println("replay: FAIL", f)
@@ -603,6 +608,12 @@ func main() {
 			continue
 		}
 		h.seq(r, 8).Explore()
+	}
+	for _, c := range []mvx.Cfg{cfgPlain, cfgPrefix, {Name: "memTree+memVal", MemTree: true, MemVal: true}} {
+		if o := os.Getenv("C01_ONLY"); (o != "" && o != "worktree") || (r.Quick() && c.MemTree) {
+			continue
+		}
+		wtHarness(r, c, r.Pick(5, 6)).Explore()
 	}
 	for _, c := range larges {
 		if o := os.Getenv("C01_ONLY"); o != "" && o != "large" {
